@@ -319,6 +319,8 @@ func runC07(r *fw.Run, p *fw.Program) {
 	// halt_error output (shared with C17.go): string raw, null nothing, everything else compact JSON + newline
 	c17HaltPrintAs(r, p, "C07.haltprint")
 	c07HaltStream(r, p)
+	// the query rewrite every program goes through, and per-input error isolation (borrowed from C11.wrap / C17.handlers)
+	c07Rewrite(r, p)
 	// jq values are immutable
 	jqImmutAs(r, p, "C07.immut")
 }
